@@ -2,10 +2,14 @@ package db
 
 // C25, db-level unit: the CDCStreamer labels every committed row change with the
 // index of the log entry being applied. The streamer is wired to a real DB the
-// way Store.fsmApply does it (pre-update hook + commit hook registered once;
-// Reset(index) before every request). Requests are generated (1..5 statements,
-// insert / multi-row insert / update / delete over two tables, with and without
-// transaction, through Execute or the unified Request path); the expected
+// way Store.fsmApply does it (pre-update hook + commit hook + rollback hook
+// registered once; Reset(index) before every request). Requests are generated
+// (1..5 statements, insert / multi-row insert / update / delete over two tables
+// plus failing statements at any position -- PK / UNIQUE / NOT NULL / CHECK
+// violation, partially applied multi-row insert, syntax error, missing table --
+// with and without transaction, through Execute or the unified Request path;
+// without a transaction a failing statement changes nothing and the rest still
+// run, with a transaction the first failure rolls the request back); the expected
 // change set per index comes from an independent model (same statements on a
 // raw-driver database, tables diffed around every statement). Every expected
 // (index, op, table, rowid) must be found in a group carrying that index.
@@ -98,6 +102,38 @@ func c25sApply(db *sql.DB, stmt string) ([]c25sChange, error) {
 	return out, nil
 }
 
+// c25sApplyReq applies a request to the model with rqlite's documented request
+// semantics and returns the committed changes per statement and the failures.
+func c25sApplyReq(db *sql.DB, stmts []string, tx bool) ([][]c25sChange, []bool, error) {
+	changes := make([][]c25sChange, len(stmts))
+	failed := make([]bool, len(stmts))
+	if tx {
+		if _, err := db.Exec("BEGIN"); err != nil {
+			return nil, nil, err
+		}
+	}
+	for j, s := range stmts {
+		chs, serr := c25sApply(db, s)
+		if serr != nil {
+			failed[j] = true
+			if tx {
+				if _, err := db.Exec("ROLLBACK"); err != nil {
+					return nil, nil, err
+				}
+				return make([][]c25sChange, len(stmts)), failed, nil
+			}
+			continue
+		}
+		changes[j] = chs
+	}
+	if tx {
+		if _, err := db.Exec("COMMIT"); err != nil {
+			return nil, nil, err
+		}
+	}
+	return changes, failed, nil
+}
+
 type c25sReq struct {
 	Index   uint64
 	Stmts   []string
@@ -120,7 +156,7 @@ func c25sGen(rt *rapid.T) []c25sReq {
 		for j := 0; j < k; j++ {
 			serial++
 			t := rapid.SampledFrom([]string{"t1", "t1", "t2"}).Draw(rt, "table")
-			switch rapid.IntRange(0, 6).Draw(rt, "kind") {
+			switch rapid.IntRange(0, 8).Draw(rt, "kind") {
 			case 0, 1, 2:
 				r.Stmts = append(r.Stmts, fmt.Sprintf("INSERT INTO %s(v) VALUES('a%d')", t, serial))
 			case 3:
@@ -129,8 +165,27 @@ func c25sGen(rt *rapid.T) []c25sReq {
 				r.Stmts = append(r.Stmts, fmt.Sprintf("UPDATE %s SET v='u%d' WHERE id=(SELECT max(id) FROM %s)", t, serial, t))
 			case 5:
 				r.Stmts = append(r.Stmts, fmt.Sprintf("UPDATE %s SET v=v||'x%d' WHERE id IN (SELECT id FROM %s ORDER BY id DESC LIMIT 3)", t, serial, t))
-			default:
+			case 6:
 				r.Stmts = append(r.Stmts, fmt.Sprintf("DELETE FROM %s WHERE id=(SELECT min(id) FROM %s)", t, t))
+			default:
+				var f string
+				switch rapid.IntRange(0, 6).Draw(rt, "failKind") {
+				case 0:
+					f = fmt.Sprintf("INSERT INTO %s(id, v) VALUES((SELECT max(id) FROM %s), 'dup%d')", t, t, serial)
+				case 1:
+					f = fmt.Sprintf("INSERT INTO %s(v, u) VALUES('q%d', 'same')", t, serial)
+				case 2:
+					f = fmt.Sprintf("INSERT INTO %s(v) VALUES(NULL)", t)
+				case 3:
+					f = fmt.Sprintf("INSERT INTO %s(v) VALUES('bad')", t)
+				case 4:
+					f = fmt.Sprintf("INSERT INTO %s(id, v) SELECT 500000+%d, 'p%d' UNION ALL SELECT (SELECT min(id) FROM %s), 'dup'", t, serial, serial, t)
+				case 5:
+					f = fmt.Sprintf("INSERT INTO %s(v) VALUEZ('s%d')", t, serial)
+				default:
+					f = fmt.Sprintf("INSERT INTO no_such_table_%s(v) VALUES('n%d')", t, serial)
+				}
+				r.Stmts = append(r.Stmts, f)
 			}
 		}
 		reqs = append(reqs, r)
@@ -141,7 +196,7 @@ func c25sGen(rt *rapid.T) []c25sReq {
 
 func TestVerif_C25_Streamer(t *testing.T) {
 	rec := vstat.New(t, "C25", "streamer",
-		"1..8 (thorough ..20) requests of 1..5 statements (insert/multi-row insert/update/delete over t1,t2), tx or not, Execute or unified Request, applied to a real DB with the CDCStreamer hooks registered as the Store does and Reset(index) before each; non-trivial = some non-transactional request has >=2 statements that change rows; distinct by the request list")
+		"1..8 (thorough ..20) requests of 1..5 statements (insert/multi-row insert/update/delete over t1,t2), tx or not, Execute or unified Request, applied to a real DB with the CDCStreamer hooks registered as the Store does and Reset(index) before each; with failing statements (constraint violations, syntax errors) at any position and the rollback hook registered; non-trivial = some non-transactional request has >=2 statements that change rows, or a failing statement plus one that changes rows; distinct by the request list")
 	rapid.Check(t, func(rt *rapid.T) {
 		reqs := c25sGen(rt)
 		dir, err := os.MkdirTemp("", "c25s-")
@@ -159,7 +214,9 @@ func TestVerif_C25_Streamer(t *testing.T) {
 			rt.Skip("model")
 		}
 		defer model.Close()
-		schema := []string{"CREATE TABLE t1(id INTEGER PRIMARY KEY, v TEXT)", "CREATE TABLE t2(id INTEGER PRIMARY KEY, v TEXT)"}
+		schema := []string{
+			"CREATE TABLE t1(id INTEGER PRIMARY KEY, v TEXT NOT NULL CHECK(v <> 'bad'), u TEXT UNIQUE)",
+			"CREATE TABLE t2(id INTEGER PRIMARY KEY, v TEXT NOT NULL CHECK(v <> 'bad'), u TEXT UNIQUE)"}
 		mk := func(stmts []string, tx bool) *command.Request {
 			ss := make([]*command.Statement, len(stmts))
 			for i := range stmts {
@@ -186,6 +243,10 @@ func TestVerif_C25_Streamer(t *testing.T) {
 		if err := d.RegisterCommitHook(streamer.CommitHook); err != nil {
 			t.Fatalf("harness: %v", err)
 		}
+		if err := d.RegisterRollbackHook(streamer.RollbackHook); err != nil {
+			t.Fatalf("harness: %v", err)
+		}
+		defer d.RegisterRollbackHook(nil)
 		defer d.RegisterCommitHook(nil)
 		defer d.RegisterPreUpdateHook(nil, nil, false)
 
@@ -203,26 +264,37 @@ func TestVerif_C25_Streamer(t *testing.T) {
 			if err != nil {
 				t.Fatalf("harness: request failed: %v (%s)", err, r)
 			}
-			for _, x := range res {
-				if x.GetError() != "" || x.GetE().GetError() != "" {
-					t.Fatalf("harness: statement failed: %v (%s)", x, r)
+			changes, failed, err := c25sApplyReq(model, r.Stmts, r.Tx)
+			if err != nil {
+				t.Fatalf("harness: model: %v", err)
+			}
+			for j, x := range res {
+				gotFailed := x.GetError() != "" || x.GetE().GetError() != ""
+				if j < len(failed) && gotFailed != failed[j] {
+					rec.Label("model-disagrees-on-failure")
+					rt.Skip("rqlite and SQLite disagree about a statement failure (C13's business)")
 				}
 			}
-			changing := 0
-			for j, s := range r.Stmts {
-				chs, err := c25sApply(model, s)
-				if err != nil {
-					t.Fatalf("harness: model: %v", err)
+			changing, anyFailed := 0, false
+			for j := range r.Stmts {
+				if failed[j] {
+					anyFailed = true
 				}
-				if len(chs) > 0 {
+				if len(changes[j]) > 0 {
 					changing++
 				}
-				for _, c := range chs {
+				for _, c := range changes[j] {
 					c.Index, c.Stmt = r.Index, j
 					expected = append(expected, c)
 				}
 			}
-			if !r.Tx && changing >= 2 {
+			if anyFailed {
+				rec.Label(fmt.Sprintf("req-with-failing-stmt/tx=%v", r.Tx))
+				if !r.Tx && changing >= 1 {
+					rec.Label("nontx-failure-and-commit-in-one-request")
+				}
+			}
+			if !r.Tx && (changing >= 2 || (anyFailed && changing >= 1)) {
 				nontrivial = true
 			}
 		drain:
